@@ -1595,3 +1595,12 @@ class ApplicationEntity:
         invalid = [ii for ii in contexts if not isinstance(ii, PresentationContext)]
         if invalid:
             raise ValueError("'contexts' must be a list of PresentationContext items")
+
+        # PS3.8 Table 9-13: each presentation context item shall contain one
+        #   abstract syntax and one or more transfer syntax sub-items
+        for context in contexts:
+            if not context.abstract_syntax or not context.transfer_syntax:
+                raise ValueError(
+                    "Each requested presentation context must have an abstract "
+                    "syntax and at least one transfer syntax"
+                )
